@@ -667,3 +667,7 @@ def run(ck):
     check_terms(ck, prog, prog_xz)
     check_clamp(ck, prog)
     check_needed(ck, prog)
+    from . import reinit
+    ck.rule("C09-STALENEXT", "memconfig and the other entry points use a lazily initialised nested decoder only behind a test of coder->sequence")
+    reinit.check_stale_nested(ck, prog, "C09-STALENEXT")
+    ck.floor("C09-STALENEXT", 4)
